@@ -1185,6 +1185,8 @@ pub enum ROp {
     /// forget the k-th known inode number by (1 | its count | count+1 | u64::MAX)
     Forget(usize, u8),
     BatchForget,
+    /// a batch that names one inode more than once: [(first, 1), (second, 1), (first, 1), (first, 1)]
+    BatchForgetRepeat,
     Rename(usize, usize),
     Unlink(usize),
     Rmdir(usize),
@@ -1196,7 +1198,7 @@ pub fn c08_alphabet(rich: bool) -> Vec<ROp> {
         ROp::Lookup(D::Root, 0), ROp::Lookup(D::Root, 1), ROp::Lookup(D::Root, 5), ROp::Lookup(D::Root, 4), ROp::Lookup(D::Dd, 0),
         ROp::Create(1), ROp::Create(0), ROp::Create(4), ROp::Create(2), ROp::Mkdir(1), ROp::Mknod(1), ROp::Symlink(1), ROp::Link(0, 1),
         ROp::ReaddirPlus(0), ROp::ReaddirPlus(1), ROp::ReaddirPlus(2), ROp::Readdir,
-        ROp::BatchForget, ROp::Rename(0, 1), ROp::Rename(1, 0), ROp::Unlink(0), ROp::Unlink(1), ROp::Unlink(5), ROp::Rmdir(1),
+        ROp::BatchForget, ROp::BatchForgetRepeat, ROp::Rename(0, 1), ROp::Rename(1, 0), ROp::Unlink(0), ROp::Unlink(1), ROp::Unlink(5), ROp::Rmdir(1),
     ];
     for slot in 0..if rich { 3 } else { 2 } {
         for kind in 0..4u8 {
@@ -1426,6 +1428,19 @@ impl RefWorld {
                 if items.len() <= 1 {
                     return false;
                 }
+                cl.batch_forget(&self.w.subj, &items);
+                for (n, c) in items {
+                    self.forget_model(n, c);
+                }
+            }
+            ROp::BatchForgetRepeat => {
+                let Some(&first) = self.order.first() else { return false };
+                let mut items: Vec<(u64, u64)> = vec![(first, 1)];
+                if let Some(&second) = self.order.get(1) {
+                    items.push((second, 1));
+                }
+                items.push((first, 1));
+                items.push((first, 1));
                 cl.batch_forget(&self.w.subj, &items);
                 for (n, c) in items {
                     self.forget_model(n, c);
